@@ -208,7 +208,11 @@ PROPS["C07"] = dict(
     rule="one evaluation = one seeded run of a 1/3/5-node cluster: 2-5 clients send 12-60 single- and multi-key commands (unique values) to "
          "tape-chosen nodes while the tape schedules every message delivery, raft tick and client step and the adversary injects message "
          "drop/reorder/delay, partitions (symmetric, asymmetric, leader isolated) and heals, slow nodes, crash-restart of a minority at "
-         "quiescence or at a sync/send/reply seam, rconf add/delete (35 % of the crash configurations are the directed ack-then-crash / "
+         "quiescence or at a sync/send/reply seam, rconf add/delete (in any letter case), in the "
+         "rconf configurations and 12 % of the others 1-4 management commands in careless shapes (rconf/member without or with bad arguments, "
+         "ids 0 / existing / huge, other letter cases, member list from another database after SELECT; a well-formed add of an unreachable "
+         "member only where the real nodes remain a quorum of the enlarged configuration and no fault is planned; replies not judged, a "
+         "refused command must change no membership) (35 % of the crash configurations are the directed ack-then-crash / "
          "vote-then-crash / vote-then-torn-crash choreographies described under C08); then everything is healed and restarted, every node must answer a fresh "
          "command within 60 simulated seconds and every key is read back on every node; oracles = porcupine over the client history against "
          "the reference model (unanswered commands stay pending), equal keyspace dumps for equal applied index after every step and at the "
